@@ -620,6 +620,11 @@ class SigGen:
             if self.hz != 'dup_two_callers':
                 return None
             self.hz_done = True
+        # the second dummy of a duplicate pair of the *calling* routine is never used as an actual: once the pair is
+        # merged, different actuals would coincide in some calls only (differing patterns: documented restriction)
+        dupnames = {a.name for a in r.args if a.dupof}
+        if dupnames:
+            objs = [o for o in objs if o.path[0] not in dupnames]
         for _ in range(40):
             chosen = {}
             acts = []
